@@ -1,5 +1,6 @@
-(** C21 property theorems.  [run eager sync reqs st0 ops] is the channel model of Model.v on ANY request stream [reqs]
-    (any number of pipelined requests, any lengths, any process() scripts, persistent or "Connection: close"), ANY
+(** C21 property theorems.  [trun eager sync reqs tmo abt (tst0 tmo) ops] is the channel model of Model.v on ANY request stream [reqs]
+    (any number of pipelined requests, with or without bodies, any lengths, any process() scripts, persistent or
+    "Connection: close"), ANY idle timeout [tmo] / [abt] with the clock advancing by any amounts ([Tick]), ANY
     eager-read limit and ANY history [ops] (bytes arriving in any cuts, transport pause / resume, connection loss,
     the application calling notifyFinish / write / finish / registerProducer / unregisterProducer on any request at
     any time, every notifyFinish Deferred carrying ANY reaction = calls its callback/errback makes synchronously when
@@ -10,27 +11,27 @@
     finished); ENotify i d / EFired i d ok = the d-th notifyFinish Deferred of request i handed out / fired with
     None (ok) or a failure; ELost i = connection loss delivered to request i. *)
 From Coq Require Import List NArith Bool Arith.
-From C21 Require Import Model ProofsSim ProofsLog.
+From C21 Require Import Model ProofsSim ProofsLog ProofsLive.
 Import ListNotations.
 
 (** every log is accepted by the protocol monitor of Model.v (one open request, wire bytes only for it and in
     order, Deferreds fire only once, only after completion, with the matching value, and none is left waiting at
     the end of any operation) *)
-Theorem log_accepted_by_protocol_monitor : forall (eager : N) (sync : bool) (reqs : list reqspec) (ops : list op),
-  mon_ops mon0 (snd (run eager sync reqs st0 ops)) <> None.
+Theorem log_accepted_by_protocol_monitor : forall (eager : N) (sync : bool) (reqs : list reqspec) (tmo abt : option N) (ops : list top),
+  mon_ops mon0 (snd (trun eager sync reqs tmo abt (tst0 tmo) ops)) <> None.
 Proof. exact final_accepted. Qed.
 Print Assumptions log_accepted_by_protocol_monitor.
 
 (** at every point of every history at most one request is in the application (handed over and not finished) *)
-Theorem at_most_one_request_in_application : forall (eager : N) (sync : bool) (reqs : list reqspec) (ops : list op) (A B : list ev),
-  concat (snd (run eager sync reqs st0 ops)) = A ++ B ->
+Theorem at_most_one_request_in_application : forall (eager : N) (sync : bool) (reqs : list reqspec) (tmo abt : option N) (ops : list top) (A B : list ev),
+  concat (snd (trun eager sync reqs tmo abt (tst0 tmo) ops)) = A ++ B ->
   forall i i', In (EProcess i) A -> ~ In (EEnd i) A -> In (EProcess i') A -> ~ In (EEnd i') A -> i = i'.
 Proof. exact final_one_open. Qed.
 Print Assumptions at_most_one_request_in_application.
 
 (** request j is handed over exactly after requests 0..j-1, and only when each of them has finished *)
-Theorem next_only_after_previous_finished : forall (eager : N) (sync : bool) (reqs : list reqspec) (ops : list op) A j B,
-  concat (snd (run eager sync reqs st0 ops)) = A ++ EProcess j :: B ->
+Theorem next_only_after_previous_finished : forall (eager : N) (sync : bool) (reqs : list reqspec) (tmo abt : option N) (ops : list top) A j B,
+  concat (snd (trun eager sync reqs tmo abt (tst0 tmo) ops)) = A ++ EProcess j :: B ->
   (forall i, i < j <-> In (EProcess i) A) /\ (forall i, i < j -> In (EEnd i) A).
 Proof. exact final_next. Qed.
 Print Assumptions next_only_after_previous_finished.
@@ -38,8 +39,8 @@ Print Assumptions next_only_after_previous_finished.
 (** every byte of response i goes to the transport after request i was handed over, after ALL earlier responses
     are finished, before response i is finished; the head comes first and once: responses are on the wire in
     request order and never interleaved *)
-Theorem responses_in_request_order_not_interleaved : forall (eager : N) (sync : bool) (reqs : list reqspec) (ops : list op) A e B i,
-  concat (snd (run eager sync reqs st0 ops)) = A ++ e :: B ->
+Theorem responses_in_request_order_not_interleaved : forall (eager : N) (sync : bool) (reqs : list reqspec) (tmo abt : option N) (ops : list top) A e B i,
+  concat (snd (trun eager sync reqs tmo abt (tst0 tmo) ops)) = A ++ e :: B ->
   e = EHead i \/ (exists j, e = EWrite i j) \/ e = EEnd i ->
   In (EProcess i) A /\ ~ In (EEnd i) A /\ (forall k, k < i -> In (EEnd k) A) /\
   (e = EHead i -> ~ In (EHead i) A) /\ (e <> EHead i -> In (EHead i) A).
@@ -47,8 +48,8 @@ Proof. exact final_wire. Qed.
 Print Assumptions responses_in_request_order_not_interleaved.
 
 (** once the connection is gone (EGone = HTTPChannel.connectionLost) no request is handed to the application *)
-Theorem no_request_handed_over_after_connection_lost : forall (eager : N) (sync : bool) (reqs : list reqspec) (ops : list op) A j B,
-  concat (snd (run eager sync reqs st0 ops)) = A ++ EProcess j :: B -> ~ In EGone A.
+Theorem no_request_handed_over_after_connection_lost : forall (eager : N) (sync : bool) (reqs : list reqspec) (tmo abt : option N) (ops : list top) A j B,
+  concat (snd (trun eager sync reqs tmo abt (tst0 tmo) ops)) = A ++ EProcess j :: B -> ~ In EGone A.
 Proof. exact final_gone. Qed.
 Print Assumptions no_request_handed_over_after_connection_lost.
 
@@ -57,22 +58,37 @@ Print Assumptions no_request_handed_over_after_connection_lost.
     was handed out before, has not fired before, and its request has already finished (None) / lost its connection
     (failure); (3) at the end of every operation, every Deferred handed out so far whose request has finished or
     lost its connection so far has fired (exactly once) *)
-Theorem notifyFinish_fires_exactly_once_with_None_or_failure : forall (eager : N) (sync : bool) (reqs : list reqspec) (ops : list op),
-  (forall A B i d, concat (snd (run eager sync reqs st0 ops)) = A ++ B -> count_fired A i d <= 1) /\
-  (forall A i d (ok : bool) B, concat (snd (run eager sync reqs st0 ops)) = A ++ EFired i d ok :: B ->
+Theorem notifyFinish_fires_exactly_once_with_None_or_failure : forall (eager : N) (sync : bool) (reqs : list reqspec) (tmo abt : option N) (ops : list top),
+  (forall A B i d, concat (snd (trun eager sync reqs tmo abt (tst0 tmo) ops)) = A ++ B -> count_fired A i d <= 1) /\
+  (forall A i d (ok : bool) B, concat (snd (trun eager sync reqs tmo abt (tst0 tmo) ops)) = A ++ EFired i d ok :: B ->
      In (ENotify i d) A /\ (if ok then In (EEnd i) A else In (ELost i) A) /\ count_fired A i d = 0) /\
-  (forall k i d, let A := concat (firstn k (snd (run eager sync reqs st0 ops))) in
+  (forall k i d, let A := concat (firstn k (snd (trun eager sync reqs tmo abt (tst0 tmo) ops))) in
      In (ENotify i d) A -> In (EEnd i) A \/ In (ELost i) A -> count_fired A i d = 1).
 Proof. exact final_notify. Qed.
 Print Assumptions notifyFinish_fires_exactly_once_with_None_or_failure.
 
 (** pause / resume bookkeeping: whenever the channel is idle (no request being handled) and the transport is not
     asking it to wait, reading from the transport is not paused *)
-Theorem reading_resumed_when_idle : forall (eager : N) (sync : bool) (reqs : list reqspec) (ops : list op),
-  s_handling (fst (run eager sync reqs st0 ops)) = false -> s_waiting (fst (run eager sync reqs st0 ops)) = false ->
-  net_paused false (concat (snd (run eager sync reqs st0 ops))) = false.
+Theorem reading_resumed_when_idle : forall (eager : N) (sync : bool) (reqs : list reqspec) (tmo abt : option N) (ops : list top),
+  s_handling (t_st (fst (trun eager sync reqs tmo abt (tst0 tmo) ops))) = false -> s_waiting (t_st (fst (trun eager sync reqs tmo abt (tst0 tmo) ops))) = false ->
+  net_paused false (concat (snd (trun eager sync reqs tmo abt (tst0 tmo) ops))) = false.
 Proof. exact final_reading. Qed.
 Print Assumptions reading_resumed_when_idle.
+
+(** liveness of the pipeline: the bytes consumed are exactly the requests handed over, and whenever the channel is
+    idle (nothing being handled, connection neither lost nor closing) the next request of the stream has NOT been
+    completely received — a completely received request is never held back *)
+Theorem idle_channel_holds_no_complete_request_back : forall (eager : N) (sync : bool) (reqs : list reqspec) (tmo abt : option N) (ops : list top),
+  Forall (fun q => (0 < q_len q)%N) reqs ->
+  let s := t_st (fst (trun eager sync reqs tmo abt (tst0 tmo) ops)) in
+  s_cons s = sumlen (firstn (length (s_rq s)) reqs) /\
+  (s_handling s = false /\ s_lost s = false /\ s_closing s = false ->
+   match nth_error reqs (length (s_rq s)) with
+   | Some q => (s_recv s < s_cons s + q_len q)%N
+   | None => True
+   end).
+Proof. intros eager sync reqs tmo abt ops Hpos. exact (trun_live eager sync reqs tmo abt ops _ (live0 reqs tmo Hpos)). Qed.
+Print Assumptions idle_channel_holds_no_complete_request_back.
 
 (** the code before the repair: finish, then notifyFinish() queues a Deferred that nothing will fire — the
     protocol monitor rejects that log and accepts the repaired one *)
@@ -82,12 +98,17 @@ Theorem notifyFinish_after_completion_refuted_for_unrepaired_notifyFinish :
 Proof. exact pinned_notify_rejected. Qed.
 Print Assumptions notifyFinish_after_completion_refuted_for_unrepaired_notifyFinish.
 
-(** a non-trivial history: three pipelined requests in one delivery on a transport that reports loss at once; the
-    first request's Deferred, when it fires, drops the connection, calls finish() and asks for another Deferred *)
+(** a non-trivial history: three pipelined requests (the second with a body) on a transport that reports loss at
+    once; the first request's Deferred, when it fires, drops the connection, calls finish() and asks for another one;
+    and an idle timeout that fires while half a request is buffered *)
 Example pipeline_example :
-  snd (run 16384 true [mkQ 37 true [ANotify [RLose; RFinish; RNotify]]; mkQ 37 true [ANotify [RNotify]]; mkQ 56 false [AFinish]] st0
-           [Data 74; App 0 AWrite; TPause; App 0 AFinish; Data 56; App 1 AFinish])
-  = [[EProcess 0; ENotify 0 0]; [EHead 0; EWrite 0 0]; [];
+  snd (trun 16384 true [mkQ 37 true false [ANotify [RLose; RFinish; RNotify]]; mkQ 37 true true [ANotify [RNotify]];
+                        mkQ 56 false false [AFinish]] (Some 5%N) (Some 3%N) (tst0 (Some 5%N))
+            [Op (Data 74); Op (App 0 AWrite); Op TPause; Tick 100; Op (App 0 AFinish); Op (Data 56); Op (App 1 AFinish)])
+  = [[EProcess 0; ENotify 0 0]; [EHead 0; EWrite 0 0]; []; [];
      [EEnd 0; EProcess 1; ENotify 1 0; EFired 0 0 true; EClose; EGone; ELost 1; EFired 1 0 false; ENotify 1 1; EFired 1 1 false;
-      ENotify 0 1; EFired 0 1 true]; []; [ERaise]].
-Proof. vm_compute. reflexivity. Qed.
+      ENotify 0 1; EFired 0 1 true]; []; [ERaise]] /\
+  snd (trun 16384 false [mkQ 37 true false [AFinish]; mkQ 37 true false []] (Some 5%N) (Some 3%N) (tst0 (Some 5%N))
+            [Op (Data 50); Tick 4; Tick 1; Tick 3; Op Lose])
+  = [[EProcess 0; EHead 0; EEnd 0; ENetResume]; []; [EClose]; [EAbort]; [EGone]].
+Proof. vm_compute. split; reflexivity. Qed.
